@@ -807,6 +807,18 @@ func (y *Type) Resolve() *Type {
 	return y.delegate
 }
 
+// clone is a copy that can be compiled on its own
+func (y *Type) clone() *Type {
+	copy := *y
+	if y.unionTypes != nil {
+		copy.unionTypes = make([]*Type, len(y.unionTypes))
+		for i, member := range y.unionTypes {
+			copy.unionTypes[i] = member.clone()
+		}
+	}
+	return &copy
+}
+
 func (base *Type) mixin(derived *Type) {
 	if len(derived.patterns) == 0 {
 		derived.patterns = base.patterns
